@@ -3,6 +3,8 @@ import NostrRelay.Model.Bytes
 import NostrRelay.Model.RateLimiter
 import NostrRelay.Model.Notifier
 import NostrRelay.Model.KV
+import NostrRelay.Model.SQL
 import NostrRelay.Props.C18
 import NostrRelay.Props.C20
 import NostrRelay.Props.C10
+import NostrRelay.Props.C01
